@@ -147,7 +147,7 @@ func init() {
 	}
 	sup.Register(&sup.Check{
 		Prop: "C14", Level: "exploration",
-		Rule:        "(real time) each scenario owns a bucket (in-memory / on-disk, 2 collections, a live feed on each); a deadline 2-3 s ahead is introduced through one of 19 entry points (relative or absolute form) in one of 14 order classes (only deadline; a later deadline of another key set before / after it through Set or through any of the 19 entry points, far Touch included; shortened or lengthened by a rewrite or a Touch; kept by PreserveExpiry; cleared by a plain rewrite or by delete + re-create; already past; same key without expiry in the sibling collection; deadline in a collection that was swept once, dropped and created again; deadline behind a decoy deadline that was lengthened / cleared / deleted, so that the sweep armed for it finds nothing); GetExpiry must report the expiry in force; then only reads poll the key: a read that completes before second T and reports the key missing is a violation (sound under any load), and by T+3 s the document must be a tombstone and its deletion event must have reached the feed, or - for lengthened / cleared expiries - must still be readable, with a canary timer measuring scheduler lateness (> 500 ms makes the scenario inconclusive); (sweep race) 1200-1800 documents share one deadline and, while the sweep for it runs, the target (due at the same instant) is rewritten without / with a far expiry or touched: once that is acknowledged the document must stay readable; (deleted with an expiry) Update with a deleting callback / WriteCas without a body carry an expiry argument, or a document that has a near expiry is deleted through Delete / Remove / DeleteWithXattrs / WriteTombstoneWithXattrs / Update: at that time no second deletion event and no CAS change may happen to the tombstone; (expiry in force, sequential) engine A judges GetExpiry after every entry point and pre-state; (reopen) documents with a pending or overdue deadline survive a kill / close and are tombstoned after reopen in a fresh process; order class sibling-handle-closed (another handle of the bucket is opened and closed before / after the deadline is introduced); (forced windows) the expiry of a discarded Update / WriteUpdateWithXattrs attempt must not be stored; (deleted with an expiry) also tombstones created by WriteTombstoneWithXattrs / UpdateXattrDeleteBody / DeleteWithMeta with an expiry argument; order class earlier-deadline-dropped; cell = (introducing entry point, order class, relative/absolute)",
+		Rule:        "(real time) each scenario owns a bucket (in-memory / on-disk, 2 collections, a live feed on each); a deadline 2-3 s ahead is introduced through one of 19 entry points (relative or absolute form) in one of 14 order classes (only deadline; a later deadline of another key set before / after it through Set or through any of the 19 entry points, far Touch included; shortened or lengthened by a rewrite or a Touch; kept by PreserveExpiry; cleared by a plain rewrite or by delete + re-create; already past; same key without expiry in the sibling collection; deadline in a collection that was swept once, dropped and created again; deadline behind a decoy deadline that was lengthened / cleared / deleted, so that the sweep armed for it finds nothing); GetExpiry must report the expiry in force; then only reads poll the key: a read that completes before second T and reports the key missing is a violation (sound under any load), and by T+3 s the document must be a tombstone and its deletion event must have reached the feed, or - for lengthened / cleared expiries - must still be readable, with a canary timer measuring scheduler lateness (> 500 ms makes the scenario inconclusive); (sweep race) 1200-1800 documents share one deadline and, while the sweep for it runs, the target (due at the same instant) is rewritten without / with a far expiry or touched: once that is acknowledged the document must stay readable; (deleted with an expiry) Update with a deleting callback / WriteCas without a body carry an expiry argument, or a document that has a near expiry is deleted through Delete / Remove / DeleteWithXattrs / WriteTombstoneWithXattrs / Update: at that time no second deletion event and no CAS change may happen to the tombstone; (expiry in force, sequential) engine A judges GetExpiry after every entry point and pre-state; (reopen) documents with a pending or overdue deadline survive a kill / close and are tombstoned after reopen in a fresh process; order class sibling-handle-closed (another handle of the bucket is opened and closed before / after the deadline is introduced); (forced windows) the expiry of a discarded Update / WriteUpdateWithXattrs attempt must not be stored; (deleted with an expiry) also tombstones created by WriteTombstoneWithXattrs / UpdateXattrDeleteBody / DeleteWithMeta with an expiry argument; order class earlier-deadline-dropped; order class far-deadline-in-lower-collection; cell = (introducing entry point, order class, relative/absolute)",
 		Assumptions: []string{"inherently wall-clock: decided on this VM's clock; 'a few seconds' is fixed at B = 3 s (a correctly armed timer fires within 1 s of T)", "every other deadline of the same bucket is absent or >= T+8 s, so a wrongly armed timer cannot be mistaken for lateness"},
 		Parts: append(append([]sup.Part{rtPart(20, 300),
 			{Name: "rewrite-during-sweep", Timeout: 120 * time.Second, Count: func(t string) int { return tierN(t, 5, 60) }, Run: sweepRaceBatch},
